@@ -182,6 +182,50 @@ def run_config(v, ctx, tftpd, tier, combo, rng):
             if not srv.alive():
                 v.note_inconclusive(f"{cfgname}: server exited (status {srv.exit_status()}) during the sequence: {srv.log_tail(300)}")
                 break
+        # a client endpoint with a transfer in progress sends a request that must be refused: the refusal still comes, from
+        # the listening port, and nothing changes on disk
+        if srv.alive():
+            busy = []
+            busy.append(("RRQ", "missing_busy.bin", 1))
+            if ro:
+                busy.append(("WRQ", "new_busy.bin", 2))
+            elif not ow and recv_files:
+                busy.append(("WRQ", sorted(recv_files)[0], 6))
+            for kind, target, code in busy:
+                evaluations += 1
+                s = N._sock(timeout=1.5)
+                tr0 = N.Transfer()
+                try:
+                    s.sendto(N.enc_req(N.RRQ, "exist_long.bin"), srv.addr)
+                    k0, f0, peer = N.recv(s, tr0)
+                    if k0 != "DATA":
+                        v.note_inconclusive(f"{cfgname}: could not open the download that keeps the endpoint busy ({k0})")
+                        continue
+                    before = N.snapshot(sb["root"])
+                    replay = {"engine": "net", "config": cfgname, "request": [kind, target, "from an endpoint whose download of exist_long.bin waits for ACK 1"], "server_args": srv.args}
+                    got = None
+                    for attempt in range(2):
+                        s.sendto(N.enc_req(N.RRQ if kind == "RRQ" else N.WRQ, target), srv.addr)
+                        end = __import__("time").time() + (1.5 if attempt == 0 else 4.0)
+                        while __import__("time").time() < end and got is None:
+                            k1, f1, src1 = N.recv(s, tr0, timeout=max(0.05, end - __import__("time").time()))
+                            if k1 == "ERROR":
+                                got = (f1["code"], src1)
+                        if got:
+                            break
+                    if got is None or got[0] != code:
+                        v.violation(f"C06/busy-endpoint/{kind}-ERROR{code}", f"{cfgname}: {kind} {target} sent by an endpoint with a download in progress was answered {got} instead of ERROR {code}", replay)
+                    elif got[1] != srv.addr:
+                        v.violation("C06/refusal-port", f"{cfgname}: refusal for a busy endpoint came from {got[1]}, not the listening port {srv.port}", replay)
+                    else:
+                        distinct.add((cfgname, "busy-endpoint", kind, code))
+                        outcomes[f"busy-endpoint-ERROR{code}"] = outcomes.get(f"busy-endpoint-ERROR{code}", 0) + 1
+                    s.sendto(N.enc_error(0, b"done"), peer)
+                    diff = N.snap_diff(before, N.snapshot(sb["root"]))
+                    if diff:
+                        v.violation("C06/refusal-fs-effect", f"{cfgname}: refused {kind} {target} from a busy endpoint changed the filesystem: {diff[:3]}", replay)
+                finally:
+                    s.close()
     return evaluations, distinct, samples, outcomes
 
 
